@@ -207,7 +207,7 @@ def free_names(tree, acc=None):
 
 def gen_case(rng, max_depth=4, n_rows=3, p_powc2=0.05, p_replin=0.04):
     """tree with 1..5 free parameters (scrambled names), the parameter table and the data rows"""
-    for _ in range(50):
+    for _ in range(400):
         target = rng.choice([1, 1, 2, 2, 2, 3, 3, 4, 5])
         g = DGen(rng, max_depth=max_depth, p_powc2=p_powc2, p_replin=p_replin, n_names=min(10, target + rng.choice([0, 0, 1, 2])))
         tree = g.real(max_depth)
@@ -246,8 +246,126 @@ def gen_case(rng, max_depth=4, n_rows=3, p_powc2=0.05, p_replin=0.04):
             betas = {k: v for k, v in g.betas.items() if k in used}
             rows = g.rows(n_rows)
             fix_rows(tree, rows)
+            if not well_conditioned(tree, betas, rows):
+                continue      # huge / nearly singular intermediate values: not an interior, well-scaled point
             return {'tree': tree, 'betas': betas, 'rows': rows}
     raise RuntimeError('c02_gen: could not generate a case')
+
+
+class OutOfRange(Exception):
+    pass
+
+
+def pyeval(tree, betas, row, big=2.0 ** 14, tiny=2.0 ** -10):
+    """floating-point value of the tree (generator side only, to keep the cases WELL CONDITIONED: every intermediate value
+    is finite and below `big` in magnitude, every argument of log / base of a power / divisor is above `tiny` in magnitude).
+    Raises OutOfRange otherwise.  Every sub-tree is evaluated, read or not."""
+    import math
+    h, k = tree['h'], tree['k']
+    t = h[0]
+
+    def chk(v):
+        if not isinstance(v, float) or not math.isfinite(v) or abs(v) > big:
+            raise OutOfRange(t)
+        return v
+    vs = [pyeval(x, betas, row, big, tiny) for x in k]
+    try:
+        if t == 'Num':
+            return chk(val(h[1:3]))
+        if t == 'Beta':
+            return chk(float(betas[h[1]]['value']))
+        if t == 'Var':
+            return chk(float(row[h[1]]))
+        if t == 'Bin':
+            a, b = vs
+            op = h[1]
+            if op == 'Plus':
+                return chk(a + b)
+            if op == 'Minus':
+                return chk(a - b)
+            if op == 'Times':
+                return chk(a * b)
+            if op == 'Divide':
+                if abs(b) < tiny:
+                    raise OutOfRange(t)
+                return chk(a / b)
+            if op == 'Power':
+                if a < tiny:
+                    raise OutOfRange(t)
+                return chk(a ** b)
+            if op == 'BMin':
+                return chk(min(a, b))
+            if op == 'BMax':
+                return chk(max(a, b))
+            if op == 'And':
+                return float(a != 0 and b != 0)
+            if op == 'Or':
+                return float(a != 0 or b != 0)
+            return float({'Eq': a == b, 'Ne': a != b, 'Le': a <= b, 'Ge': a >= b, 'Lt': a < b, 'Gt': a > b}[op])
+        if t == 'Un':
+            a = vs[0]
+            op = h[1]
+            if op == 'UMinus':
+                return chk(-a)
+            if op == 'Exp':
+                return chk(math.exp(a))
+            if op == 'Log':
+                if a < tiny:
+                    raise OutOfRange(t)
+                return chk(math.log(a))
+            if op == 'Logzero':
+                if a == 0:
+                    return 0.0
+                if a < tiny:
+                    raise OutOfRange(t)
+                return chk(math.log(a))
+            if op == 'Sin':
+                return chk(math.sin(a))
+            if op == 'Cos':
+                return chk(math.cos(a))
+            if op == 'NormalCdf':
+                return chk(0.5 * math.erfc(-a / math.sqrt(2.0)))
+            raise OutOfRange(t)
+        if t == 'PowC':
+            a = vs[0]
+            c = val(h[1:3])
+            if c != int(c) or c < 0:
+                if abs(a) < tiny or (c != int(c) and a < tiny):
+                    raise OutOfRange(t)
+            return chk(float(a ** c))
+        if t == 'MultSum':
+            return chk(float(sum(vs)))
+        if t == 'LinUtil':
+            return chk(float(sum(vs[i] * vs[i + 1] for i in range(0, len(vs), 2))))
+        if t == 'CondSum':
+            return chk(float(sum(vs[i + 1] for i in range(0, len(vs), 2) if vs[i] != 0)))
+        if t == 'Elem':
+            keys = h[1]
+            kv = vs[0]
+            if kv != int(kv) or int(kv) not in keys:
+                raise OutOfRange(t)
+            return chk(vs[1 + keys.index(int(kv))])
+        if t == 'LogLogit':
+            uk, ak = h[1], h[2]
+            us = dict(zip(uk, vs[1:1 + len(uk)]))
+            avs = dict(zip(ak, vs[1 + len(uk):]))
+            c = vs[0]
+            if c != int(c) or int(c) not in us or not avs.get(int(c)):
+                raise OutOfRange(t)
+            den = sum(math.exp(us[kk]) for kk in uk if avs.get(kk))
+            return chk(us[int(c)] - math.log(den))
+    except (OverflowError, ZeroDivisionError, ValueError, KeyError):
+        raise OutOfRange(t)
+    raise OutOfRange(t)
+
+
+def well_conditioned(tree, betas, rows):
+    try:
+        for row in rows:
+            pyeval(tree, betas, row)
+        return True
+    except OutOfRange:
+        return False
 
 
 def fix_rows(tree, rows):
